@@ -264,6 +264,13 @@ class Gen:
             "r-zero": E.der_sig(0, s),
             "s-zero": E.der_sig(r, 0),
         }
+        # an over-long INTEGER compensated by a short one (a bound on rlen + slen instead of on each)
+        b33 = lambda v: b"\x02\x21\x01" + v.to_bytes(32, "big")
+        b34 = lambda v: b"\x02\x22\x01\x00" + v.to_bytes(32, "big")
+        for name, body2 in (("s-33-octets:r-1-octet", E.der_int(5) + b33(s)), ("r-33-octets:s-1-octet", b33(r) + E.der_int(7)),
+                            ("s-34-octets:r-1-octet", E.der_int(5) + b34(s)), ("s-33-octets:r-31-octets", E.der_int(2 ** 246 + 1) + b33(s)),
+                            ("r-33-octets:s-31-octets", b33(r) + E.der_int(2 ** 246 + 1)), ("s-63-octets:r-1-octet", E.der_int(1) + b"\x02\x3f\x01" + bytes(30) + s.to_bytes(32, "big"))):
+            muts["overlong:" + name] = b"\x30" + E.der_len(len(body2)) + body2
         for name, sg in muts.items():
             self.vder(P, ev, sg, "verifyder:mut:%s" % name, expect="ERR")
         # a superfluous 00 in front of an octet < 0x80 (needs r / s with the top bit clear)
